@@ -109,7 +109,10 @@ func interp(expr ast.Expr, env *val.Env) *val.Val {
 
 	case *ast.MemberExpr:
 		// 也可以 desugar 成 build-in-fun
-		return interp(e.Obj, env).Obj().V[e.Index]
+		// by name: an equal object type may list its fields in another order
+		v, ok := interp(e.Obj, env).Obj().Get(e.Field.Name)
+		util.Assert(ok, "undefined field %s", e.Field.Name)
+		return v
 
 	//case *ast.IfExpr:
 	//	// IF 已经 desugar 成 lazyFun 了, 这里已经没用了
